@@ -21,6 +21,10 @@ PROGRAMS = [
     ("ok", ""),
     ("lex", 'DISPLAY("a")\nx <- "unterminated\n'),
     ("lex", "DISPLAY(1)\nx = 3\n"),
+    ("lex", "\ufeffDISPLAY(\"bom\")\n"),
+    ("ok", "DISPLAY(\"crlf\")\r\nDISPLAY(2)\r\n"),
+    ("ok", "DISPLAY(\"no final newline\")"),
+    ("ok", "// only a comment"),
     ("parse", "DISPLAY(1)\nDISPLAY((2)\n"),
     ("parse", "RETURN 1\n"),
     ("parse", 'IMPORT ["A"] FROM MOD\n'),
@@ -84,8 +88,18 @@ class PROP(PropCheck):
 
     def run_impl(self, cases):
         with ThreadPoolExecutor(max_workers=C.NCPU) as ex:
-            return list(ex.map(lambda c: run_cli(C.CLI_BIN, c.src, c.meta["mode"], c.meta["debug"], c.meta["check"],
-                                                 c.meta["stdin"].encode("utf-8")), cases))
+            res = list(ex.map(lambda c: run_cli(C.CLI_BIN, c.src, c.meta["mode"], c.meta["debug"], c.meta["check"],
+                                                c.meta["stdin"].encode("utf-8")), cases))
+        # mode equivalence, checked on the implementation itself: same source + configuration, different way of supplying it
+        groups = {}
+        for c, r in zip(cases, res):
+            if c.meta["cls"] != "input" and c.meta["stdin"] == "":
+                groups.setdefault((c.src, c.meta["debug"], c.meta["check"]), []).append((c, r))
+        for g in groups.values():
+            if len(set(r for _, r in g)) > 1:
+                for c, _ in g:
+                    c.meta["mode_mismatch"] = sorted(set("%s: %s" % (cc.meta["mode"], rr[:60]) for cc, rr in g))
+        return res
 
     def mk(self, cls, src, mode, debug, check, stdin):
         return Case(src, meta={"cls": cls, "mode": mode, "debug": debug, "check": check, "stdin": stdin})
@@ -123,6 +137,8 @@ class PROP(PropCheck):
     def oracle(self, case, impl):
         if impl == "TIMEOUT":
             return "the tool did not terminate"
+        if case.meta.get("mode_mismatch"):
+            return "the same source gives different results as a file, with -e and on standard input: %s" % case.meta["mode_mismatch"]
         st, out, err = impl.split(" ")
         status = int(st[1:])
         cls = case.meta["cls"]
